@@ -20,6 +20,8 @@ def run_case(case):
     wr = {}            # index -> weakref
     ident = {}         # id(obj) -> index (only valid while alive)
     log = []
+    mdlog = []         # case["md"]: every emitted value v travels with the metadata [{"v": v}]; per delivery the ids received
+    with_md = bool(case.get("md"))
     obs = []
     pending = {}       # rsink index -> edit to perform inside its callback
     edit_exc = []
@@ -53,6 +55,7 @@ def run_case(case):
 
         def wrapped(x, who=None, metadata=None):
             log.append((idx_of(who), i, x))
+            mdlog.append([m.get("v") for m in (metadata or [])])
             return cls_update(ref(), x, who=who, metadata=metadata)
         node.update = wrapped
 
@@ -68,6 +71,7 @@ def run_case(case):
 
     for op in case["ops"]:
         del log[:]
+        del mdlog[:]
         raised = False
         try:
             k = op[0]
@@ -97,12 +101,18 @@ def run_case(case):
                 wrap(n, i)
                 del n, U
             elif k == "emit":
-                held[op[1]].emit(op[2])
+                if with_md:
+                    held[op[1]].emit(op[2], metadata=[{"v": op[2]}])
+                else:
+                    held[op[1]].emit(op[2])
             elif k == "remit":
                 pending.clear()
                 del edit_exc[:]
                 pending[op[3]] = op[4]
-                held[op[1]].emit(op[2])
+                if with_md:
+                    held[op[1]].emit(op[2], metadata=[{"v": op[2]}])
+                else:
+                    held[op[1]].emit(op[2])
             elif k == "connect":
                 held[op[1]].connect(held[op[2]])
             elif k == "disconnect":
@@ -120,6 +130,8 @@ def run_case(case):
                 for key in [kk for kk, v in ident.items() if v == i]:
                     del ident[key]
         obs.append({"raised": raised, "deliv": list(log), "links": snapshot()})
+        if with_md:
+            obs[-1]["deliv_md"] = list(mdlog)
         if op[0] == "remit":
             obs[-1]["edit_raised"] = list(edit_exc)
             obs[-1]["edit_done"] = op[3] not in pending
